@@ -163,6 +163,9 @@ def load_stl_ascii(file_obj):
 
     # collect the keyword arguments for the Trimesh constructor
     kwargs = {}
+    # how often each name was asked for, so `unique_name`
+    # doesn't probe every earlier suffix again (n^2 otherwise)
+    name_counts = {}
 
     # keep track of our position in the file
     position = 0
@@ -232,7 +235,7 @@ def load_stl_ascii(file_obj):
             name = None
 
         # make sure geometry has a unique name for the scene
-        name = util.unique_name(name, kwargs)
+        name = util.unique_name(name, kwargs, counts=name_counts)
         # save the constructor arguments
         kwargs[name] = {
             "vertices": vertices.reshape((-1, 3)),
